@@ -32,7 +32,8 @@ PROPS = {
     ),
     "C04": dict(
         theorems=["marginalize_eq_spec", "marginalize_perm", "marginalize_stepwise", "marginalize_mass",
-                  "keep_eq_remove_complement", "duplicate_is_error", "out_of_range_is_error", "all_axes_is_error"],
+                  "keep_eq_remove_complement", "duplicate_is_error", "out_of_range_is_error", "all_axes_is_error", "marginal_is_spectrum", "marginal_counts"],
+        modules=["SfsModel.Props.C04", "SfsModel.Props.C04X"],
         nontrivial=r"^(marg-(sorted|unsorted|stepwise)-[1-9]of[2-9]|err-)",
         rule="all shapes 1-3 axes x lengths 1..4 and 4 axes x 1..2 (thorough: 1-4 x 1..4, 5 x 1..3, 400 random up to 5 axes x 1..6) x all subsets of axes x all orders, "
              "odd integer data with distinct gaps (exact sums), one-at-a-time removal on the implementation, error streams (duplicate, out of range, 2^64-1, all axes, empty list); "
@@ -42,19 +43,20 @@ PROPS = {
     ),
     "C13": dict(
         theorems=["view_eq_chain", "view_noop", "mask_spec", "mask_length", "first_last_index", "normalize_spec", "sumList_eq"],
-        nontrivial=r"^(view|chain)-(m1|m0p1|m0p0k1|m0p0k0n1|error)",
+        nontrivial=r"^(view|chain)-(m1|m0p1|m0p0k1|m0p0k0n1|error)|^viewtext-",
         rule="real `sfs view -O npy` binary on 40 (thorough 400) random non-negative count spectra with 1-4 axes x all 2^4 option subsets "
              "(marginalize via -m or -M, project via --project-shape or -p, --mask-monomorphic, -n; 1/12 of marginalization / projection arguments inadmissible), "
-             "single invocation and the four-stage chain piped through npy, compared with viewRun in exact rationals within 2^-30 relative; "
+             "single invocation and the four-stage chain piped through npy, compared with viewRun in exact rationals within 2^-30 relative; a quarter of the cases also as text at precision 0/1/3/6/12/15 (header line exact, one token per entry with exactly p decimals, each within half a printed unit + 2^-30 relative of the model value); "
              "non-trivial = distinct request with at least one option set, or an error case",
         exhaustive=False,
         assumptions=["numeric agreement within 2^-30*(|q| + scale): projection and normalisation are evaluated in binary64 by the implementation"],
-        correspondence_only=["text output at --precision p (decided with the text model under C07)"],
+        
     ),
     "C03": dict(
         theorems=["chooseFast_eq", "hyper_eq", "hyper_sum_one", "hyper_full", "projectValue_cons", "project_eq_spec", "projectIter_eq",
                   "project_ok_iff", "zero_is_error", "dimension_is_error", "larger_is_error", "project_mass", "project_id",
-                  "project_nonneg", "hyper_compose", "project_project"],
+                  "project_nonneg", "hyper_compose", "project_project", "project_marginalize_comm"],
+        modules=["SfsModel.Props.C03", "SfsModel.Props.C03X"],
         nontrivial=r"^(project-d[1-9]|project-two-step$|pmf-.*-pos|project-err)",
         rule="Spectrum::project in-process on every admissible target (<= 40 sampled per shape in quick) of all shapes 1-2 axes x 1..7, 3 axes x 1..3, 4 axes x 1..2 "
              "(thorough: 1-3 x 1..7, 4 x 1..3), odd-integer data and unit vectors (single operator rows), two-step vs direct, rejected targets (larger, zero, other dimensionality); "
@@ -62,7 +64,7 @@ PROPS = {
              "compared with exact rationals within 2^-30 relative; non-trivial = distinct request with a non-identity target, a positive coefficient or an error",
         exhaustive=True,
         assumptions=["binary64 evaluation (ln_gamma, exp, rounding of binomials) is compared within 2^-30*(|q|+scale), not proved; 'finite for thousands of chromosomes' is decided by the coefficient probes only"],
-        correspondence_only=["finite results at sizes of thousands of chromosomes (f64 range)", "projection commutes with marginalization (explored via C13 chains)",
+        correspondence_only=["finite results at sizes of thousands of chromosomes (f64 range)",
                              "project after create = project during create (stated and proved on the create model under C02)"],
     ),
     "C01": dict(
